@@ -253,7 +253,9 @@ where
     I: IntoIterator<Item = T>,
   {
     let iter = iter.into_iter();
-    let size: usize = iter.size_hint().1.unwrap_or(0);
+    // Reserve for the elements that are certain to come: the upper bound may lie far above what the iterator yields
+    // (`usize::MAX` for a filtered unbounded range), and reserving it would overflow the capacity.
+    let size: usize = iter.size_hint().0;
 
     let mut this: Self = Self::with_capacity(size);
 
